@@ -255,7 +255,7 @@ func PrepareForPackager(
 		switch content.Type {
 		case TypeDir:
 			// implicit directories at the same destination can just be overwritten
-			presentContent, destinationOccupied := contentMap[NormalizeAbsoluteDirPath(content.Destination)]
+			presentContent, destinationOccupied := occupant(contentMap, content.Destination)
 			if destinationOccupied && presentContent.Type != TypeImplicitDir {
 				return nil, contentCollisionError(content, presentContent)
 			}
@@ -274,7 +274,7 @@ func PrepareForPackager(
 			// have been expanded so we can just ignore it, it will be created
 			// by another content element again anyway
 		case TypeRPMGhost, TypeSymlink, TypeRPMDoc, TypeRPMLicence, TypeRPMLicense, TypeRPMReadme, TypeDebChangelog:
-			presentContent, destinationOccupied := contentMap[NormalizeAbsoluteFilePath(content.Destination)]
+			presentContent, destinationOccupied := occupant(contentMap, content.Destination)
 			if destinationOccupied {
 				return nil, contentCollisionError(content, presentContent)
 			}
@@ -322,6 +322,18 @@ func PrepareForPackager(
 	return res, nil
 }
 
+// occupant returns the content that already occupies the given destination
+// path, no matter whether it was added as a directory (keyed with a trailing
+// slash) or as a file-like entry (keyed without).
+func occupant(contentMap map[string]*Content, dst string) (*Content, bool) {
+	if c, ok := contentMap[NormalizeAbsoluteFilePath(dst)]; ok {
+		return c, true
+	}
+
+	c, ok := contentMap[NormalizeAbsoluteDirPath(dst)]
+	return c, ok
+}
+
 func isRelevantForPackager(packager string, content *Content) bool {
 	if packager == "" {
 		return true
@@ -350,7 +362,7 @@ func addParents(contentMap map[string]*Content, path string, mtime time.Time) er
 		parent = NormalizeAbsoluteDirPath(parent)
 		// check for content collision and just overwrite previously created
 		// implicit directories
-		c, ok := contentMap[parent]
+		c, ok := occupant(contentMap, parent)
 		if ok {
 			// either we already created this directory as an explicit directory
 			// or as an implicit directory of another file
@@ -408,7 +420,7 @@ func addGlobbedFiles(
 ) error {
 	for src, dst := range globbed {
 		dst = NormalizeAbsoluteFilePath(dst)
-		presentContent, destinationOccupied := all[dst]
+		presentContent, destinationOccupied := occupant(all, dst)
 		if destinationOccupied {
 			c := *origFile
 			c.Destination = dst
@@ -452,7 +464,7 @@ func addTree(
 	mtime time.Time,
 ) error {
 	if tree.Destination != "/" && tree.Destination != "" {
-		presentContent, destinationOccupied := all[NormalizeAbsoluteDirPath(tree.Destination)]
+		presentContent, destinationOccupied := occupant(all, tree.Destination)
 		if destinationOccupied && presentContent.Type != TypeImplicitDir {
 			return contentCollisionError(tree, presentContent)
 		}
